@@ -85,13 +85,16 @@ structure Agree (s : Sel) (c c' : Ctx) : Prop where
   start : ∀ k, s.start.contains k = true → c.win.startArgs[k]? = c'.win.startArgs[k]?
   startAll : s.startAll = true → c.win.startArgs = c'.win.startArgs
   endA : s.endA = true → c.win.endArgs = c'.win.endArgs
+  endL : ∀ k, s.endL.contains k = true → c.win.endArgs[k]? = c'.win.endArgs[k]?
   tid : s.tid = true → c.win.startTid = c'.win.startTid
   data : s.data = true → c.win.startData = c'.win.startData
   lookups : s.lookups = true → c.win.lookups = c'.win.lookups ∧ c.win.restFirst = c'.win.restFirst
   gstr : s.gstr = true → c.win.globalStrings = c'.win.globalStrings
   tpids : s.tpids = true → c.win.threadsPids = c'.win.threadsPids
   tnames : s.tnames = true → c.win.tidsNames = c'.win.tidsNames
-  host : s.host = true → c.host = c'.host
+  host : s.host = true → c.host.signals = c'.host.signals ∧ c.host.addressFamily = c'.host.addressFamily
+    ∧ c.host.socketKind = c'.host.socketKind ∧ c.host.solSocket = c'.host.solSocket
+  hostErrno : s.hostErrno = true → c.host.errno = c'.host.errno
   fields : s.fields = true → c.fields = c'.fields
 
 /-- Footprint lemma: an expression that reads only what `s` permits evaluates equally in two
@@ -100,12 +103,21 @@ theorem selectLookup_congr (w w' : Window) (h1 : w.lookups = w'.lookups) (h2 : w
     (sel : LookupSel) : selectLookup w sel = selectLookup w' sel := by
   cases sel <;> simp [selectLookup, h1, h2]
 
+theorem hostTable_congr (s : Sel) (c c' : Ctx) (h : Agree s c c') (t : HostTable)
+    (hw : (if t = HostTable.errno then s.hostErrno else s.host) = true) : c.host.table t = c'.host.table t := by
+  cases t <;> simp only [Host.table] <;> simp at hw
+  · exact h.hostErrno hw
+  · exact (h.host hw).1
+  · exact (h.host hw).2.1
+  · exact (h.host hw).2.2.1
+
 theorem eval_congr (s : Sel) (c c' : Ctx) (h : Agree s c c') (e : Expr) (hw : within s e = true) :
     eval c e = eval c' e := by
   have ht := h.tables
   have hsa := h.startAll
   have hs := h.start
   have he := h.endA
+  have hel := h.endL
   have htid := h.tid
   have hd := h.data
   have hl := h.lookups
@@ -113,6 +125,7 @@ theorem eval_congr (s : Sel) (c c' : Ctx) (h : Agree s c c') (e : Expr) (hw : wi
   have htp := h.tpids
   have htn := h.tnames
   have hh := h.host
+  have hhe := h.hostErrno
   have hf := h.fields
   induction e with
   | startArg k =>
@@ -121,6 +134,15 @@ theorem eval_congr (s : Sel) (c c' : Ctx) (h : Agree s c c') (e : Expr) (hw : wi
     rcases hw with hw | hw
     · rw [hsa hw]
     · rw [hs k hw]
+  | endArg k =>
+    simp only [within, Bool.or_eq_true] at hw
+    simp only [eval]
+    rcases hw with hw | hw
+    · rw [he hw]
+    · rw [hel k hw]
+  | hostEnum t e ih | hostHas t e ih | hostGet t e ih =>
+    simp only [within, Bool.and_eq_true] at hw
+    simp only [eval, ih hw.2, hostTable_congr s c c' h t hw.1]
   | lookupPath sel | lookupVnode sel =>
     simp only [within] at hw
     simp only [eval, selectLookup_congr _ _ (hl hw).1 (hl hw).2]
@@ -168,5 +190,44 @@ theorem eval_subst (c : Ctx) (hc : c.fields = []) (fs : List Expr) (vs : List Va
       obtain ⟨v, hv, hev⟩ := (key i).1 f hfi
       simp [hv, hev]
   | _ => simp_all [eval, subst]
+
+end KdVerif.IR
+
+namespace KdVerif.IR
+
+theorem render_eq (h : Host) (t : Tables) (d : Decoder) (w : Window) :
+    render h t d w = (evalFields { host := h, tables := t, win := w } d.fields).bind
+      (fun fs => evalS { host := h, tables := t, win := w, fields := fs } d.str) := by
+  unfold render evalS
+  cases evalFields { host := h, tables := t, win := w } d.fields with
+  | error e => rfl
+  | ok fs =>
+    simp only [bind, Except.bind]
+    cases eval { host := h, tables := t, win := w, fields := fs } d.str with
+    | error e => rfl
+    | ok v => cases v <;> rfl
+
+/-- `str(handler(...))` as: evaluate the constructor arguments (errors surface here), then concatenate the
+    normalised pieces of `__str__` with the arguments inlined. -/
+theorem render_eq_pieces (h : Host) (t : Tables) (d : Decoder) (w : Window) :
+    render h t d w = (evalFields { host := h, tables := t, win := w } d.fields).bind
+      (fun _ => evalPieces { host := h, tables := t, win := w } (normalize (subst d.fields d.str))) := by
+  rw [render_eq]
+  cases hf : evalFields { host := h, tables := t, win := w } d.fields with
+  | error e => rfl
+  | ok fs =>
+    simp only [Except.bind]
+    have := eval_subst { host := h, tables := t, win := w } rfl d.fields fs hf d.str
+    rw [evalS_normalize]
+    simp only [evalS, this]
+
+theorem evalFields_append_const (c : Ctx) (xs : List Expr) (b : Bool) :
+    evalFields c (xs ++ [.bool b]) = (evalFields c xs).map (· ++ [.bool b]) := by
+  induction xs with
+  | nil => simp [evalFields, eval, bind, Except.bind, pure, Except.pure, Except.map]
+  | cons x xs ih =>
+    simp only [List.cons_append, evalFields, ih]
+    cases eval c x <;> simp [bind, Except.bind, Except.map, pure, Except.pure]
+    cases evalFields c xs <;> simp
 
 end KdVerif.IR
